@@ -179,9 +179,25 @@ def parseOne (addr : Bytes) : Option (Bytes × Bytes × Bytes) :=
     | some i => (name, e.take i, e.drop (i + 1))
     | none => (name, e, [])
 
-/-- the whole list: split at commas, blank entries dropped -/
+/-- `splitAddressList`: split at the commas that separate addresses — not those inside a quoted display name (where a
+backslash quotes the next octet) or inside angle brackets -/
+def splitAddrAux : Bytes → Bool → Bool → Bytes → List Bytes
+  | [], _, _, cur => [cur.reverse]
+  | c :: cs, q, a, cur =>
+    if c = b_bs ∧ q = true then
+      match cs with
+      | d :: ds => splitAddrAux ds q a (d :: c :: cur)
+      | [] => [(c :: cur).reverse]
+    else if c = b_dq then splitAddrAux cs (!q) a (c :: cur)
+    else if c = 60 ∧ q = false then splitAddrAux cs q true (c :: cur)
+    else if c = 62 ∧ q = false then splitAddrAux cs q false (c :: cur)
+    else if c = b_comma ∧ q = false ∧ a = false then cur.reverse :: splitAddrAux cs q a []
+    else splitAddrAux cs q a (c :: cur)
+def splitAddresses (s : Bytes) : List Bytes := splitAddrAux s false false []
+
+/-- the whole list: split at the separating commas, blank entries dropped -/
 def addressList (s : Bytes) : Option (List (Bytes × Bytes × Bytes)) :=
-  (((splitOn b_comma s).map trimSpace).filter (· ≠ [])).mapM parseOne
+  (((splitAddresses s).map trimSpace).filter (· ≠ [])).mapM parseOne
 
 theorem mapM_total {α β : Type} (f : α → Option β) (h : ∀ a, (f a).isSome = true) : ∀ l : List α, (l.mapM f).isSome = true
   | [] => rfl
